@@ -42,3 +42,116 @@ Theorem c04_nonvacuous :
          [ex_f; ex_g; ex_h; spacel L_space; ex_i] ].
 Proof. exact GreedyProof.c04_nonvacuous. Qed.
 Print Assumptions c04_nonvacuous.
+
+(* ---------- the whole renderer on a paragraph (Proofs/ParaGreedy.v): the lines are exactly the reference greedy wrapping of the flow's text (leaf texts, decorator affixes, references), same TooNarrow outcome; also behind one prefix ---------- *)
+From H2T Require Import Base Tagged Wrap Sub Css Dom Render Api CssParse Proofs.CssTotal Proofs.WrapInv Proofs.RenderWidth Proofs.Conserve Proofs.Footnotes Proofs.AnnBalance Proofs.RenderConserve Proofs.OptionRel Proofs.Compose Proofs.RenderTotal Proofs.FragStream Proofs.SimRel Proofs.Prune Proofs.GreedyProof Proofs.Decorators Proofs.ParaGreedy.
+Theorem para_greedy_node :
+  forall (d : deco) (mw : N) (n : rnode) (s : subr) (rest : list subr) (lk : list text),
+       para n = true ->
+       Fresh s ->
+       o_pad (sopts s) = false ->
+       o_allow_overflow (sopts s) = false ->
+       1 <= eff_w (sopts s) (swidth_ s) ->
+       GreedyProof.all_words_pos (flow_text d (sopts s) (filter_depth s) n (length lk)) ->
+       node_out d mw n {| stack := s :: rest; links := lk |} =
+       Greedy.greedy (eff_w (sopts s) (swidth_ s))
+         (Greedy.words_of (flow_text d (sopts s) (filter_depth s) n (length lk))).
+Proof. exact ParaGreedy.para_greedy_node. Qed.
+Print Assumptions para_greedy_node.
+
+Theorem para_greedy_tree :
+  forall (d : deco) (mw : N) (o : ropts) (width : N) (tree : rnode),
+       para tree = true ->
+       o_pad o = false ->
+       o_allow_overflow o = false ->
+       1 <= eff_w o width ->
+       GreedyProof.all_words_pos (flow_text d o 0 tree 0) ->
+       match Greedy.greedy (eff_w o width) (Greedy.words_of (flow_text d o 0 tree 0)) with
+       | Ok body =>
+           exists (s : subr) (ls new : list rline),
+             render_tree d mw o width tree = Ok s /\
+             sub_into_lines s = Ok ls /\
+             strs ls =
+             body ++ match foot_links o tree with
+                     | [] => []
+                     | _ :: _ => blank_after body
+                     end ++ strs new /\
+             entry_groups (map entry_text (finalise_from 1 (foot_links o tree))) [] new /\
+             (o_wrap_links o = false -> strs new = map entry_text (finalise_from 1 (foot_links o tree)))
+       | TooNarrow => (do s <- render_tree d mw o width tree; sub_into_lines s) = TooNarrow
+       | _ => False
+       end.
+Proof. exact ParaGreedy.para_greedy_tree. Qed.
+Print Assumptions para_greedy_tree.
+
+Theorem para_tree_lines :
+  forall (d : deco) (mw : N) (o : ropts) (width : N) (tree : rnode) (s : subr) (ls : list rline),
+       para tree = true ->
+       o_pad o = false ->
+       o_allow_overflow o = false ->
+       1 <= eff_w o width ->
+       GreedyProof.all_words_pos (flow_text d o 0 tree 0) ->
+       render_tree d mw o width tree = Ok s ->
+       sub_into_lines s = Ok ls ->
+       exists (body : list text) (new : list rline),
+         Greedy.greedy (eff_w o width) (Greedy.words_of (flow_text d o 0 tree 0)) = Ok body /\
+         strs ls =
+         body ++ match foot_links o tree with
+                 | [] => []
+                 | _ :: _ => blank_after body
+                 end ++ strs new /\
+         entry_groups (map entry_text (finalise_from 1 (foot_links o tree))) [] new /\
+         (o_wrap_links o = false -> strs new = map entry_text (finalise_from 1 (foot_links o tree))).
+Proof. exact ParaGreedy.para_tree_lines. Qed.
+Print Assumptions para_tree_lines.
+
+Theorem quote_para_greedy :
+  forall (d : deco) (mw : N) (p : rnode) (sty : cstyle) (s : subr) (lk : list text) (st' : rstate),
+       sty_ok sty = true ->
+       pre_ok d s (swidth (d_quote_prefix d)) p lk ->
+       render_node d mw (RN (IBlockQuote [p]) sty) {| stack := [s]; links := lk |} = Ok st' ->
+       exists (b : subr) (body : list text),
+         st' = {| stack := [b]; links := lk ++ all_links p |} /\
+         Greedy.greedy (inner_w s (swidth (d_quote_prefix d))) (inner_words d s p lk) = Ok body /\
+         out_lines b = Ok (map (app (d_quote_prefix d)) body).
+Proof. exact ParaGreedy.quote_para_greedy. Qed.
+Print Assumptions quote_para_greedy.
+
+Theorem header_para_greedy :
+  forall (d : deco) (mw level : N) (p : rnode) (sty : cstyle) (s : subr) (lk : list text) (st' : rstate),
+       sty_ok sty = true ->
+       pre_ok d s (swidth (d_header_prefix d level)) p lk ->
+       render_node d mw (RN (IHeader level [p]) sty) {| stack := [s]; links := lk |} = Ok st' ->
+       exists (b : subr) (body : list text),
+         st' = {| stack := [b]; links := lk ++ all_links p |} /\
+         Greedy.greedy (inner_w s (swidth (d_header_prefix d level))) (inner_words d s p lk) = Ok body /\
+         out_lines b = Ok (map (app (d_header_prefix d level)) body).
+Proof. exact ParaGreedy.header_para_greedy. Qed.
+Print Assumptions header_para_greedy.
+
+Theorem dd_para_greedy :
+  forall (d : deco) (mw : N) (p : rnode) (sty : cstyle) (s : subr) (lk : list text) (st' : rstate),
+       sty_ok sty = true ->
+       pre_ok d s 2 p lk ->
+       render_node d mw (RN (IDd [p]) sty) {| stack := [s]; links := lk |} = Ok st' ->
+       exists (b : subr) (body : list text),
+         st' = {| stack := [b]; links := lk ++ all_links p |} /\
+         Greedy.greedy (inner_w s 2) (inner_words d s p lk) = Ok body /\
+         out_lines b = Ok (map (app (ptext [32; 32])) body).
+Proof. exact ParaGreedy.dd_para_greedy. Qed.
+Print Assumptions dd_para_greedy.
+
+Theorem ul_item_greedy :
+  forall (d : deco) (mw : N) (p : rnode) (sty : cstyle) (s : subr) (lk : list text) (st' : rstate),
+       sty_ok sty = true ->
+       pre_ok d s (swidth (d_ul_prefix d)) p lk ->
+       render_node d mw (RN (IUl [p]) sty) {| stack := [s]; links := lk |} = Ok st' ->
+       exists (b : subr) (body : list text),
+         st' = {| stack := [b]; links := lk ++ all_links p |} /\
+         Greedy.greedy (inner_w s (swidth (d_ul_prefix d))) (inner_words d s p lk) = Ok body /\
+         out_lines b =
+         Ok
+           (prefixed (d_ul_prefix d) (repeat_chr (spacel L_prefix) (N.to_nat (swidth (d_ul_prefix d)))) body).
+Proof. exact ParaGreedy.ul_item_greedy. Qed.
+Print Assumptions ul_item_greedy.
+
